@@ -7,6 +7,7 @@ import (
 	z "github.com/Oudwins/zog"
 	"github.com/Oudwins/zog/parsers/zjson"
 	"github.com/Oudwins/zog/zenv"
+	"github.com/Oudwins/zog/zhttp"
 	v "github.com/Oudwins/zog/zzverif"
 )
 
@@ -201,7 +202,7 @@ func C06_Jobs() []string {
 		ks := string(rune('0'+k/10)) + string(rune('0'+k%10))
 		out = append(out, "struct/"+ks, "prim/"+ks, "slice/"+ks, "ptr/"+ks)
 	}
-	out = append(out, "json", "json-ptr", "env", "longkey", "validate-nil-ptrs", "two-dest-types", "long-slices", "struct-input", "odd-tags/parse", "odd-tags/validate")
+	out = append(out, "json", "json-ptr", "env", "longkey", "validate-nil-ptrs", "two-dest-types", "long-slices", "struct-input", "odd-tags/parse", "odd-tags/validate", "nil-body")
 	return out
 }
 func C06_Covers() []string { return []string{"returned"} }
@@ -341,6 +342,17 @@ func C06_Run(job string) {
 		v.Assert(n <= 5 || len(errs) == n-5+1+v.B2I(false), "C06:long-slice-result")
 		var ds struct{ L [][]int }
 		z.Struct(z.Schema{"l": z.Slice(z.Slice(z.Int()))}).Parse(map[string]any{"l": []any{in, in}}, &ds)
+	case "nil-body":
+		// a request without a body (http.NewRequest(method, url, nil) leaves Body nil) through
+		// every content type and method
+		ct := []string{"application/json", "application/x-www-form-urlencoded", "", "text/plain"}[v.Choice("ct", 4)]
+		method := []string{"POST", "GET", "PUT", "DELETE"}[v.Choice("method", 4)]
+		req := c11Request(method, ct, "", "a=1")
+		req.Body = nil
+		var d c06Dest
+		c06Schema().Parse(zhttp.Request(req), &d)
+		var pd *c06Dest
+		z.Ptr(c06Schema()).Parse(zhttp.Request(req), &pd)
 	case "struct-input":
 		// Go structs as input (schema keys name the source fields): embedded structs by value and by
 		// (nil) pointer, mismatching field types, interface-typed and pointer-typed fields
